@@ -135,7 +135,7 @@ PROPS = {
                        "request is initial, no hash twice in the tree, a stored complete response is applied by the next idle heartbeat.",
         "technique": "Lean 4 invariants by induction over arbitrary interleavings of heartbeats, replies, upgrades, config changes and queries + differential correspondence with overlapping heartbeats through the yield-point hook",
         "level_text": "Machine-checked invariants of the transition system for every schedule and reply script (no bound); the split of the heartbeat at its await is tied to the real async fn by the hook that suspends it before call_get_successors.",
-        "level_note": "Trusted: Lean kernel, harness + yield-point hook, the native mock of the inter-canister call. 'Eventually applied' is proved as one-step liveness (next heartbeat whose ingestion does no work), not as a fairness theorem. u8 page counter overflow is a trap in the model (debug) and unreachable with well-typed replies.",
+        "level_note": "Trusted: Lean kernel, harness + yield-point hook, the native mock of the inter-canister call. Liveness: explicit recovery schedule with a length bound from every reachable configuration (no_deadlock_full), fairness => unboundedly many requests (fair_unbounded_full), hypothesis 'not F13-stuck' proved necessary. u8 page counter overflow is a trap in the model (debug) and unreachable with well-typed replies.",
         "assumptions": ["replies have the kind their request asks for (other kinds trap the continuation; the trap state is modelled as rollback + guard release)"],
     },
     "C03": {
@@ -293,3 +293,23 @@ PROPS = {
         "trusted_extra": ["watchdog::verif_hooks::{install,store_round,decide} wrap the private functions health::compare, api_access::calculate_target and the storage"],
     },
 }
+
+# what the later layers add (appended to the per-property explanations)
+FULL = (" Lifted to EVERY MESSAGE HISTORY of the canister (Spec/FullSys.lean: heartbeats with any budgets incl. pauses in the middle of a block, replies of any kind, "
+        "endpoint calls, set_config, upgrades; traps roll back): fullReachable_inv + the corollaries in Props/ReachAll, Props/FullSys, Props/FullCor, under the single "
+        "environment assumption Trusted (a block that passes the canister's own validation extends a transaction-valid, txid-unique chain with a fresh hash).")
+EXTRA_EXPL = {
+    "C01": FULL + " Blocks reach the model as raw consensus bytes: hash, txids, sizes, coinbase/OP_RETURN flags and address texts are computed by the model (Props/BlockCodec: round trip, canonicity, address shapes).",
+    "C02": FULL, "C03": FULL + " Finality over message histories: stable chain append-only, block at a stable height never changes, every pop decided by the rule and along the served chain, fork blocks leave the tree only in an ingesting heartbeat.",
+    "C04": FULL, "C05": FULL, "C06": FULL, "C07": FULL,
+    "C08": FULL + " While an ingestion is paused, along any trusted message schedule that does not extend the stable chain every answer equals the pre-ingestion answer and no request is issued (c08_answers_are_pre_ingestion_answers, c08_no_request_while_ingesting).",
+    "C09": FULL + " The upgrade message is a step of the ledger system, answers and fee percentiles unchanged, next request initial (c09_upgrade_message); F13 characterised exactly (heartbeat_trap_is_F13: the ONLY heartbeat trap possible in a reachable configuration).",
+    "C10": " Processing heartbeat = pushes of the accepted prefix + announced-header insertions, rejected/undecodable blobs move exactly one counter (FullSys.processBlocks_accepted, C13Full.response_applied_once, no_reapplication); the announced-header loop's instruction-threshold break is modelled (Props/HeaderSlots).",
+    "C13": " Liveness (Props/C13Live, C13Full): no deadlock with explicit schedule and bound, fairness, progress measure, rejects never block, every complete response applied exactly once - for the message-level system with all ledger hypotheses discharged.",
+    "C14": FULL + " NetworkInRequest spellings: conversion table regenerated from source, every spelling names its network (Props/NetSpelling). Dropped announced headers (instruction break) can only make the sync gate lag (HeaderSlots.isSynced_antitone_slots).",
+    "C15": " History-only specification Spec.recentFeeRates (fee = spent outputs resolved in the history - outputs) and refinement feePercentiles = feeAnswerSpec incl. the cache, for every reachable state (Props/C15Spec); fee percentiles never trap in any message history (FullSys.fee_never_traps).",
+    "C16": FULL, "C19": " NetworkInRequest spellings as for C14 (Props/NetSpelling).",
+    "C20": FULL,
+}
+for _k, _v in EXTRA_EXPL.items():
+    PROPS[_k]["explanation"] = PROPS[_k]["explanation"] + _v
